@@ -130,6 +130,17 @@ def check_catalogue(chk, zero_table):
             ('hashleftjoin(a, header-only, %r)' % (kw,), lambda kw=kw: etl.hashleftjoin(at, B0, key='k', **kw), [r + (m,) for r in arows]),
             ('unflatten(%r)' % (kw,), lambda kw=kw: etl.unflatten([1, 2, 3], 2, **kw), [(1, 2), (3, m)]),
         ]
+    for ukw in ({}, {'key': 'k'}, {'autoincrement': (5, 2)}, {'presorted': True}):
+        exact += [('unjoin(s, %r)[0]' % (ukw,), lambda ukw=ukw: etl.unjoin(A0, 's', **ukw)[0], []),
+                  ('unjoin(s, %r)[1]' % (ukw,), lambda ukw=ukw: etl.unjoin(A0, 's', **ukw)[1], [])]
+    exact += [('complement(a, header-only, strict=True)', lambda: etl.complement(etl.cut(at, 'k', 'n'), [['k', 'n']], strict=True), [(1, 20), (2, 10)]),
+              ('recordcomplement(a, header-only, strict=True)', lambda: etl.recordcomplement(etl.cut(at, 'k', 'n'), [['n', 'k']], strict=True), [(1, 20), (2, 10)]),
+              ('diff(a, header-only, strict=True)[1]', lambda: etl.diff(etl.cut(at, 'k', 'n'), [['k', 'n']], strict=True)[1], [(1, 20), (2, 10)]),
+              ('diff(a, header-only, strict=True)[0]', lambda: etl.diff(etl.cut(at, 'k', 'n'), [['k', 'n']], strict=True)[0], []),
+              ('crossjoin(a, header-only, b)', lambda: etl.crossjoin(at, B0, bt), []),
+              ('crossjoin(a, b, header-only, b)', lambda: etl.crossjoin(at, bt, B0, bt), []),
+              ('crossjoin(a, b, b) 3 tables', lambda: etl.crossjoin(etl.cut(at, 'k'), etl.cut(bt, 'm'), etl.cut(at, 'n')),
+               [(x[0], y[1], z[2]) for x in arows for y in brows for z in arows])]
     for name, fn, want in exact:
         chk.count(('exact', name))
         chk.replayed += 1
